@@ -47,7 +47,7 @@ def _new_findings(ctx):
     return [o for o in ctx.findings if Ctx.key(o) not in known]
 
 
-def run_property(pid, tier, model=None, quiet=False, write=True):
+def run_property(pid, tier, model=None, quiet=False, write=True, model_cache=None):
     """Evaluate the property's rules on the tree as written (variant 0) and, while some obligation is open, on the
     increasingly canonicalised *equivalent* variants of canon.py.  The first variant that discharges every obligation
     decides (the variants have the same behaviour, so a proof for one is a proof for all); a violation is reported only
@@ -59,9 +59,16 @@ def run_property(pid, tier, model=None, quiet=False, write=True):
     tried = []
     prev_log = None
     try:
-        for level in range(0, max_level + 1):
+        for level in range(int(os.environ.get("UBCHECK_CANON_FROM", "0")), max_level + 1):
             try:
-                m = model if (level == 0 and model is not None) else Model(canon_level=level)
+                if level == 0 and model is not None:
+                    m = model
+                elif model_cache is not None:
+                    if level not in model_cache:
+                        model_cache[level] = Model(canon_level=level)
+                    m = model_cache[level]
+                else:
+                    m = Model(canon_level=level)
             except AnalysisError as e:
                 tried.append((level, "error", None, str(e), []))
                 break
@@ -83,7 +90,9 @@ def run_property(pid, tier, model=None, quiet=False, write=True):
                                     **({"note": (t[3] or "")[:300]} if t[3] else {})} for t in tried],
                 "variant_used": level}
     if status == "error":
-        print(f"ANALYSIS-ERROR property={pid} {note}")
+        last = tried[-1]
+        more = f" | on the most canonical variant (level {last[0]}): {last[3]}" if last[0] != level and last[3] != note else ""
+        print(f"ANALYSIS-ERROR property={pid} {note}{more}")
         return 2
     if level and not quiet:
         print(f"{pid}: verdict taken on canonical variant level {level} "
@@ -130,11 +139,13 @@ def main(argv=None):
                 print(f"known: property={k['property']} rule={k['rule']} instance={k['instance']} {k.get('what', '')}")
         return 0
     if a.target == "all":
-        model = Model()
+        cache = {}
         rc = 0
         for pid in ALL:
             if os.path.exists(os.path.join(os.path.dirname(__file__), "rules", f"{pid.lower()}.py")):
-                rc = max(rc, run_property(pid, a.tier, model))
+                r = run_property(pid, a.tier, model_cache=cache)
+                print(f"RESULT {pid} rc={r}")
+                rc = max(rc, r)
         return rc
     if not a.target or a.target not in ALL:
         ap.error("give a property id C01..C20, 'all' or 'findings'")
